@@ -2,7 +2,7 @@
 """Regenerates /verif/MANIFEST.json from jsim/props.json (the per-property configuration used by ./check)."""
 import json, os
 V = os.path.dirname(os.path.abspath(__file__))
-props = json.load(open(os.path.join(V, "jsim", "props.json")))
+props = {f[:-5]: json.load(open(os.path.join(V, "jsim", "props", f))) for f in sorted(os.listdir(os.path.join(V, "jsim", "props"))) if f.endswith(".json")}
 allids = [json.loads(l)["id"] for l in open(os.path.join(V, "properties.jsonl"))]
 na_reasons = json.load(open(os.path.join(V, "jsim", "not_applicable.json"))) if os.path.exists(os.path.join(V, "jsim", "not_applicable.json")) else {}
 baseline = json.load(open("/root/.vp/BASELINE.json"))["cmd"] if os.path.exists("/root/.vp/BASELINE.json") else ""
